@@ -127,7 +127,8 @@ def run_C15(ctx):
     extra = []
     nout = 0
     internal = []
-    for r in V.run_harness(ctx, "outputs", progs):
+    harness_outputs = V.run_harness(ctx, "outputs", progs)
+    for r in harness_outputs:
         if r["kind"] == "panic":
             extra.append({"check": "C15.panic", "text": r["text"], "detail": "anthem panicked while translating: " + r["panic"], "record": r})
         if r["kind"] == "outputs":
@@ -138,6 +139,33 @@ def run_C15(ctx):
                 internal.append({"id": f"{r['id']}/{t['what']}/internal", "kind": "roundtrip", "text": f"[{t['what']} of `{r['text'][:120]}`] {t['text']}",
                                  "stage": rp["stage"], "text2": t["text"], "text3": rp.get("text3", ""), "tree1s": canon(t["tree1"]),
                                  "tree2s": canon(rp.get("tree2")), "problem": rp.get("problem", ""), "origin": t["what"]})
+    # binding of the in-process results to the command line: `anthem translate` / `anthem simplify` print exactly these texts
+    import subprocess
+    ncli = 0
+    work = ctx.path("cli15")
+    os.makedirs(work, exist_ok=True)
+    outs = [r for r in harness_outputs if r["kind"] == "outputs"]
+    for r in outs[:: max(1, len(outs) // (25 if q else 250))]:
+        with open(os.path.join(work, "p.lp"), "w") as fh:
+            fh.write(r["text"])
+        by = {t["what"]: t["text"] for t in r["texts"]}
+        for what in ("tau-star", "mu", "natural"):
+            if what not in by:
+                continue
+            cr = subprocess.run([V.ANTHEM, "translate", "--with", what, os.path.join(work, "p.lp")], stdout=subprocess.PIPE, stderr=subprocess.PIPE, text=True, timeout=60)
+            ncli += 1
+            if cr.returncode != 0 or cr.stdout != by[what]:
+                extra.append({"check": "C15.cli_prints_what_the_library_computes", "text": r["text"],
+                              "detail": f"`anthem translate --with {what}` (exit {cr.returncode}) printed {cr.stdout[:200]!r}, the library computes {by[what][:200]!r}", "record": {"prog": r["text"]}})
+        with open(os.path.join(work, "t.th"), "w") as fh:
+            fh.write(by["tau-star"])
+        for pf in ("intuitionistic", "ht", "classic"):
+            cr = subprocess.run([V.ANTHEM, "simplify", "--portfolio", pf, "--strategy", "fixpoint", os.path.join(work, "t.th")], stdout=subprocess.PIPE, stderr=subprocess.PIPE, text=True, timeout=60)
+            ncli += 1
+            # the CLI simplifies the theory it PARSED from the tau* text; after the round-trip checks above that is the same theory
+            if cr.returncode != 0 or cr.stdout != by[f"simplify-{pf}-tau-star"]:
+                extra.append({"check": "C15.cli_prints_what_the_library_computes", "text": r["text"],
+                              "detail": f"`anthem simplify --portfolio {pf}` on the tau* text (exit {cr.returncode}) printed {cr.stdout[:200]!r}, the library computes {by[f'simplify-{pf}-tau-star'][:200]!r}", "record": {"prog": r["text"]}})
     recs = roundtrip_records(ctx, cases)
     # the theory translate / simplify hold in memory vs. the theory their printed text parses to
     seen_i = set()
